@@ -448,6 +448,16 @@ def c01_r(ctx):
         d_full = expr_str(full.operand({"k": "copy", "place": _var_place(f, data)}))
         if not ("data.offset" in o_full and "data.file_data" in d_full and o_full.rsplit(").", 1)[0] == d_full.rsplit(").", 1)[0]):
             problems.append("offset (%s) and data (%s) are not the offset/file_data fields of the same PDU" % (o_full[:120], d_full[:120]))
+    # order and unconditionality: the seek dominates the write, the write dominates the record
+    from core import dominators
+
+    dom = dominators(f)
+    if seek[0] not in dom.get(write[0], ()):
+        problems.append("a path reaches write_all without passing seek(SeekFrom::Start(offset)): the bytes land wherever the cursor was left")
+    if write[0] not in dom.get(merge[0], ()):
+        problems.append("a path records the segment in the held-range list without having written its bytes to the staging file")
+    if seek[0] not in dom.get(merge[0], ()):
+        problems.append("a path records the segment without having positioned the staging file at its offset")
     if problems:
         for i, p in enumerate(problems):
             yield bad("C01-R", "store_file_data:%d" % i, at(f, merge[1]["span"]["line"]), p)
